@@ -10,15 +10,18 @@ for d in sorted(glob.glob('/verif/seeded/*/')):
     title = re.sub(r'^' + re.escape(name) + r'\s*[:–-]\s*', '', title)
     own = [f['key'] for f in m.get('checks_fired', []) if f['property'] == m['property']]
     other = [f['key'] for f in m.get('checks_fired', []) if f['property'] != m['property']]
-    rows.append((name, m['property'], title[:110], own, other, m.get('steps', {}).get('patch_applies_on_head', True)))
+    rows.append((name, m['property'], title[:110].replace('|', '/'), own, other, m.get('steps', {}).get('patch_applies_on_head', True)))
 print('| seed | what it does | caught by (own property) | also reported by |')
 print('|---|---|---|---|')
-caught = own_caught = 0
+caught = own_caught = na = 0
 for name, prop, title, own, other, applies in rows:
+    if not applies:
+        na += 1
+        continue_count = True
     if own: own_caught += 1
     if own or other: caught += 1
     o = ', '.join(sorted(set(k.split('/')[0] for k in own))) or ('— (patch does not apply on the fixed tree)' if not applies else '**not caught**')
     x = ', '.join(sorted(set(k.split('/')[0] for k in other)))
     print(f'| {name} | {title} | {o} | {x} |')
 print()
-print(f'{len(rows)} confirmed seeded changes; {own_caught} caught by a check of their own property, {caught} by some check.')
+print(f'{len(rows)} confirmed seeded changes ({na} of them do not apply on the repaired tree and cannot be re-checked); {own_caught} caught by a check of their own property, {caught} by some check.')
